@@ -29,7 +29,8 @@
 (***************************************************************************)
 EXTENDS Integers, Sequences, FiniteSets, TLC, Randomization
 
-CONSTANTS Mode,     \* "programs" | "mutants" | "automaton"
+CONSTANTS Family,   \* "api" | "cli"
+          Mode,     \* "programs" | "mutants" | "automaton"
           Sample,   \* 0: every program / mutant, n: n random ones (plus the fixed programs)
           MaxPos    \* mutants: positions 0..MaxPos (taken modulo the length of the seed)
 
@@ -80,7 +81,11 @@ MutOps == <<"delete", "duplicate", "insert", "replace">>
 Inserts == <<"{", "}", "[", "]", "(", ")", "\"", "\\(", ":", "&", "|", "*", "_|_", "\n", "a", "...", "#", "@x()", "\\", "1e9999999", "'", "?", "!", "=", "//", "/*", ".", "0x", "\t">>
 Mutants == [seed : 1..Len(Seeds), op : 1..Len(MutOps), pos : 0..MaxPos, ins : 1..Len(Inserts)]
 
-Stages == <<"parse", "compile", "validate", "concrete", "cue", "json", "yaml">>
+\* Family "api": the stages of the Go API; Family "cli": the same program through the cue command
+\* (cue eval, cue export --out json, cue export --out cue), outcome ok = exit status 0,
+\* err = exit status 1 with a message; a signal, a Go crash (exit status 2) or a hang is no outcome.
+Stages == IF Family = "api" THEN <<"parse", "compile", "validate", "concrete", "cue", "json", "yaml">>
+          ELSE <<"cli-eval", "cli-json", "cli-cue">>
 NS == Len(Stages)
 Runs == 1..3
 
@@ -103,8 +108,8 @@ Oc(r, s) == out[r][s].oc
 Allowed(r, s, oc) ==
   LET name == Stages[s] IN
   /\ oc \in {"ok", "err"}
-  /\ (name \in {"validate", "concrete", "json", "yaml"} /\ Oc(r, 2) = "err") => oc = "err"
-  /\ (name = "concrete" /\ Oc(r, 3) = "err") => oc = "err"
+  /\ (Family = "api" /\ name \in {"validate", "concrete", "json", "yaml"} /\ Oc(r, 2) = "err") => oc = "err"
+  /\ (Family = "api" /\ name = "concrete" /\ Oc(r, 3) = "err") => oc = "err"
   \* repeatability
   /\ (r > 1) => (s <= Len(out[1]) /\ oc = out[1][s].oc)
 
@@ -113,7 +118,7 @@ Step(oc, h) ==
   /\ Allowed(run, stage, oc)
   /\ (run > 1) => h = out[1][stage].h
   /\ out' = [out EXCEPT ![run] = Append(@, [oc |-> oc, h |-> h])]
-  /\ IF (stage = 1 /\ oc = "err") \/ stage = NS
+  /\ IF (Family = "api" /\ stage = 1 /\ oc = "err") \/ stage = NS
        THEN run' = run + 1 /\ stage' = 1
        ELSE run' = run /\ stage' = stage + 1
   /\ UNCHANGED prog
@@ -127,8 +132,8 @@ Stutter == UNCHANGED vars
 \* ---- properties of the automaton (checked in Mode = "automaton") ----
 TypeOK == run \in 1..4 /\ stage \in 1..NS /\ \A r \in Runs : Len(out[r]) <= NS
 Repeatable == Done => (out[1] = out[2] /\ out[2] = out[3])
-ParseErrorEnds == \A r \in Runs : (Len(out[r]) >= 1 /\ out[r][1].oc = "err") => Len(out[r]) = 1
-ErrorValueNotExported == \A r \in Runs : (Len(out[r]) = NS /\ out[r][2].oc = "err") => (out[r][6].oc = "err" /\ out[r][7].oc = "err")
+ParseErrorEnds == Family = "api" => \A r \in Runs : (Len(out[r]) >= 1 /\ out[r][1].oc = "err") => Len(out[r]) = 1
+ErrorValueNotExported == Family = "api" => \A r \in Runs : (Len(out[r]) = NS /\ out[r][2].oc = "err") => (out[r][6].oc = "err" /\ out[r][7].oc = "err")
 Terminates == <>Done
 
 TablesInit == prog = [pool |-> Pool, labels |-> Labels, stages |-> Stages, seeds |-> Seeds, ops |-> MutOps, inserts |-> Inserts] /\ run = 0 /\ stage = 0 /\ out = <<>>
